@@ -18,6 +18,10 @@ pub struct PnmScenario {
     pub writer: WriterCfg,
     pub disk: Vec<DiskFault>,
     pub reader: ReaderCfg,
+    /// Additionally run the path-based wrappers (`save_ppm`, `load_pnm`) against the real
+    /// file system, fault-free, and compare them with the stream functions.
+    #[serde(default)]
+    pub via_path: bool,
 }
 
 #[derive(Serialize, Deserialize, Clone, Debug, PartialEq)]
